@@ -128,6 +128,7 @@ def timer_notify_needs_a_valid_mac(t, n, mono, mac_tr, mac_cbc):
     local = timer_value(t, mono)
     t.handle_timer_notify(n)
     c = ghost("crypto")
+    assert len(c) == 2  # the MAC is always computed and compared - before anything else is looked at
     tb = n.timer_value.to_bytes(6, "big")
     assert c[0] == ("dec", t._backbone_key, tb + n.serial_number + n.message_tag + b"\xff\x00", n.message_authentication_code, b"")
     assert c[1] == ("cbc", t._backbone_key, bytes.fromhex("06 10 09 55 00 24"), b"", tb + n.serial_number + n.message_tag + b"\x00\x00")
